@@ -6,9 +6,9 @@ TLC:    exhaustive check of the bounded instances; every maximal behaviour is em
         of its action keys, the alphabet (key -> action record) once
           quick     MC_Sector_quick.cfg      26 actions, histories of length 3
           thorough  the quick instance, and
-                    MC_Sector_thorough.cfg   53 actions, length 3
+                    MC_Sector_thorough.cfg   54 actions, length 3
                     MC_Sector_thorough2.cfg  20 actions, length 4
-                    MC_Sector_thorough3.cfg  all 178 actions of the instance, length 2
+                    MC_Sector_thorough3.cfg  all 206 actions of the instance, length 2
         flow terms: names A, B, products A*B, B*A, quotients A/B, B/A (A/B and B/A are different flows)
 replay: each behaviour is executed on a fresh real Sector 'S' inside a fresh real Model / Country C1;
         two more sectors only receive the exclusions that must not concern S: the twin 'T' = a
@@ -26,7 +26,11 @@ Readings (the weaker one is used wherever the statement allows two):
 * "defining expression" = a non-empty, non-zero expression (D1, D2).  AddCashFlow(term, eqn='') is
   generated, but only "no existing definition is overwritten" is demanded of it; what it does to
   an absent / empty variable is a conformance clause (drift), not a property clause.
-* "empty / identically zero" are only the spellings '' and '0.0' (AddVariable / SetRHS arguments).
+* "empty / identically zero" are the library's placeholder spellings '' and '0.0'.  Real definitions
+  are generated in several spellings, among them texts that begin like a zero literal ('0.5*Z', '0.25',
+  '0.0+0.25*W'): they must never be overwritten.  The zero spellings '0' and '0.' are generated too, but
+  the statement can be read either way for them, so AddCashFlow may keep or replace them (property);
+  that the code keeps them is a conformance clause.
 * definitions are compared by value on the two valuations (text only when not evaluable); the text
   itself is a conformance clause.
 * a call that raises is drift (`call_raised`); the ledgers it leaves behind are still judged against
@@ -41,6 +45,7 @@ from harness import core
 # = Vals of Sector.tla.  Ledger values are rational (quotient flows): they are logged K-fold, as exact integers.
 ENVS = [dict(A=4096, B=16, LAG_F=1048576, Z=3, W=8), dict(A=-4096, B=16, LAG_F=-1048576, Z=-4, W=-6)]
 SCALE = 256
+DEF_SCALE = 4        # definition texts (coefficients 0.5, 0.25) are logged 4-fold = DenDef of Sector.tla
 FLOW_NAMES = ('A', 'B')
 WHO = {'S': 'C1_S', 'T': 'C2_S(twin: same Code, other Country)', 'O': 'C1_O'}
 BATCH = 32000        # behaviours executed and validated per round (bounds memory; 8 TLC jobs of 4000)
@@ -114,7 +119,7 @@ def observe(sec, verbose=False):
             elif rhs == '0.0':
                 defs[n] = {'k': 'zero', 'd': '', 'v': [0, 0], 'e': True}
             else:
-                ok, vals = evaluate(rhs)
+                ok, vals = evaluate(rhs, DEF_SCALE)
                 defs[n] = {'k': 'defined', 'd': rhs, 'v': vals, 'e': ok}
         except Exception as e:
             defs[n] = {'k': 'defined', 'd': 'EXC ' + type(e).__name__, 'v': [0, 0], 'e': False}
@@ -193,6 +198,9 @@ def signature(clause, beh, events, at):
         prev = events[at - 2]['defs'] if at >= 2 else {n: {'k': 'absent'} for n in FLOW_NAMES}
         own = prev.get(a['body'], {'k': 'n/a'})['k']
         eq = ('none' if not a['he'] else 'empty' if a['eqn'] == '' else 'zero' if a['eqn'] == '0.0' else 'expr')
+        if own == 'defined':
+            text = prev[a['body']].get('d', '')
+            own = 'defined(' + ('zero-literal-prefix' if text[:1] == '0' else 'other') + ')'
         others = sorted(set(prev[n]['k'] for n in FLOW_NAMES if n != a['body']))
         return 'define:flow-var=%s:eqn=%s:others=%s' % (own, eq, '+'.join(others))
     return clause + ':' + a['op']
@@ -300,7 +308,8 @@ def run(rep):
                        'A, B, A*B, A/B, B/A and LAG_F are distinct powers of 16: any two ledgers whose coefficients '
                        'differ by less than 16 differ in value; definition values on two integer valuations',
                        '"not excluded" is read as not excluded at the time of registration (weaker reading)',
-                       "only the spellings '' and '0.0' are generated for empty / identically zero",
+                       "empty / identically zero = the placeholder spellings '' and '0.0'; nothing is demanded of AddCashFlow about "
+                       "an existing '0' / '0.'; every other text (also one beginning like a zero literal) is a definition",
                        'defining expressions are supplied for single-name flows only',
                        'TLC 1.8 / tla2tools; Python eval of the rendered right-hand sides']
     seen = set()
